@@ -1163,6 +1163,8 @@ R2_TABLE = [
     ("C14", r"^dsplib::HilbertFilter::HilbertFilter$", "flen", 31, 401, "HilbertFilter lengths 31..401"),
     ("C14", r"^dsplib::HilbertFilter::HilbertFilter$", "tw", 0.005, 0.1, "transition widths 0.005..0.1"),
     ("C16", r"^dsplib::MedianFilter::MedianFilter$", "n", 3, 33, "orders 3..33"),
+    ("C02", r"^dsplib::IfftPlanR::IfftPlanR$", "n", 2, 2048, "all even n in 2..2048 for irfft"),
+    ("C02", r"^dsplib::IfftPlan::IfftPlan$", "n", 1, 2048, "all n in 1..2048 for ifft"),
 ]
 NUM_INF = float("inf")
 
